@@ -46,7 +46,7 @@ def strategy(draw, tier="quick"):
     nf = draw(st.integers(1, 2))
     cells = draw(gen.cells(nf, lmin=4.0, lmax=20.0, kinds=gen.KINDS_GEOMETRY))
     n = draw(st.integers(4, 14))
-    case = {"mode": "geom", "nf": nf, "cells": cells, "n": n, "seed": draw(st.integers(0, 2 ** 32 - 1)),
+    case = {"mode": "geom", "idxv": draw(st.sampled_from([0, 0, 0, 1, 2, 3, 4, 5])), "nf": nf, "cells": cells, "n": n, "seed": draw(st.integers(0, 2 ** 32 - 1)),
             "special": draw(st.sampled_from(["none", "none", "collinear", "planar"])),
             "scatter": draw(st.booleans()), "offset": draw(st.sampled_from([0.0, 0.0, 30.0, 300.0])),
             "periodic": draw(st.sampled_from([True, True, False]))}
@@ -150,7 +150,8 @@ def run_case(case):
         warnings.simplefilter("ignore")
         res = {}
         for opt in (True, False):
-            res[opt] = (md.compute_angles(traj, T, periodic=periodic, opt=opt), md.compute_dihedrals(traj, Q, periodic=periodic, opt=opt))
+            res[opt] = (md.compute_angles(traj, gen.index_variant(T, case.get("idxv", 0)), periodic=periodic, opt=opt),
+                        md.compute_dihedrals(traj, gen.index_variant(Q, case.get("idxv", 0)), periodic=periodic, opt=opt))
         revA = md.compute_angles(traj, T[:, ::-1], periodic=periodic)
         revD = md.compute_dihedrals(traj, Q[:, ::-1], periodic=periodic)
         mirD = None
